@@ -658,7 +658,8 @@ def gen_outcome(rng, dims):
 def default_dims(rng):
     """Swarm: which dimensions are active in this world."""
     d = {}
-    d["size"] = "large" if rng.random() < 0.05 else rng.choice(["tiny", "small", "small", "medium"])
+    p_large = 0.2 if os.environ.get("VERIF_TIER") == "thorough" else 0.05
+    d["size"] = "large" if rng.random() < p_large else rng.choice(["tiny", "small", "small", "medium"])
     d["steplib"] = "rich" if rng.random() < 0.3 else "small"
     allout = ["assert", "exc", "notimpl", "kbi", "skip"]
     rng.shuffle(allout)
